@@ -105,13 +105,11 @@ class World(object):
         return out
 
     def cut_inside_raw(self, cut):
-        """True / False / None (None = boundary the statement leaves open)."""
+        """True when the first byte lost to the cut is a raw-data byte of some segment (data_pos <= cut < end): that
+        segment's metadata is complete and part or all of the raw data it announces is missing."""
         for s in self.segs:
-            if s.end > s.data_pos:
-                if s.data_pos < cut < s.end:
-                    return True
-                if cut == s.data_pos:
-                    return None
+            if s.end > s.data_pos and s.data_pos <= cut < s.end:
+                return True
         return False
 
     def segments_before(self, cut):
